@@ -1,4 +1,5 @@
 import XmpProofs.FmtMod
+import XmpProofs.FmtPcm
 import XmpModel.FmtIt
 /-!
 # IT field codecs (note, volume, instrument bytes) and PCM sign conversion
@@ -208,18 +209,3 @@ theorem decBlock_encDeltas_widest (is16 it215 : Bool) (xs : List Nat) (hx : ∀ 
   exact integ_deltas is16 it215 xs hx 0 0 0 0 hpos hpos (by cases it215 <;> simp)
 
 end Xmp.Fmt.It.Sex
-
-namespace Xmp.Fmt
-/-- 8-bit sign conversion is an involution (S3M `ffi = 2`, IT convert bit 0 clear) -/
-theorem signFlip8_involutive (b : Bytes) : signFlip false (signFlip false b) = b := by
-  unfold signFlip
-  simp only [Bool.false_eq_true, if_false, List.map_map]
-  conv => rhs; rw [← List.map_id b]
-  apply List.map_congr_left
-  intro x _
-  simp only [Function.comp, u8_toNat, id]
-  have hx := x.toNat_lt
-  have : ((x.toNat + 128) % 256 % 256 + 128) % 256 = x.toNat := by omega
-  rw [this]
-  simp [u8]
-end Xmp.Fmt
